@@ -229,7 +229,9 @@ class Ref:
             if t["seq"]:
                 self._next[path] = res
                 cur = self.state.get(path)
-                return dict(cur) if cur else {o: None for o in res}
+                # before the first clock edge a registered output shows the default of its port (if it has one)
+                dflt = {p["name"]: p.get("default") for p in t["ports"]}
+                return dict(cur) if cur else {o: dflt[o] for o in res}
             return res
         for s in t["signals"]:
             types[s["name"]] = s["ty"]
